@@ -56,6 +56,8 @@ def run(ctx):
     ctx.guarded('R16a', 'who-may-call', lambda: r16a(ctx))
     ctx.guarded('R16b', FIN, lambda: r16b(ctx))
     ctx.guarded('R16c', 'propagation', lambda: r16c(ctx))
+    ctx.rule('R16e', 'register_new_xorb_for_upload: every successful return passed the spawn of the put task for this xorb, except on the empty-xorb edge; the task puts the hash, bytes and chunk list of that same xorb')
+    ctx.guarded('R16e', REGC, lambda: r16e(ctx))
 
 
 def r16a(ctx):
@@ -218,3 +220,33 @@ def r16c(ctx):
 
 def short(n):
     return '::'.join(n.split('::')[-2:])
+
+
+def r16e(ctx):
+    from .core import edges_where, strip_generics as sg
+    F = ctx.F
+    a = an(F.body(REGC))
+    sp = [s_ for s_ in a.calls('tokio::task::join_set::JoinSet::spawn') if flow.mentions(a.arg(s_, 1), lambda e: e[0] == 'agg' and e[2] == TASK)]
+    if not ctx.check(len(sp) == 1, 'R16e', REGC, 'spawn', '-', 'one spawn of the put task'):
+        return
+    empty = edges_where(a, lambda op, l, r: op == 'Eq' and l[0] == 'call' and sg(l[1]).endswith('RawXorbData::num_bytes') and r == ('const', 0, 'usize'))
+    oks = [(b, si) for (b, si, k, e) in a.ret_sites() if k != 'err']
+    for (b, si) in oks:
+        ok = a.cfg.must_pass(b, via_blocks=sp, also_cut_edges=empty)
+        ctx.check(ok, 'R16e', REGC, 'Ok<-spawn', a.loc(b, si), 'a successful return passed the spawn of this xorb\'s upload task (or the xorb is empty)',
+                  'register_new_xorb_for_upload can report success for a non-empty xorb without having spawned its upload: the shard will reference a xorb that is never stored')
+    # the coroutine's captured upvars derive from the xorb parameter
+    agg = [z for z in flow.subtrees(a.arg(sp[0], 1)) if z[0] == 'agg' and z[2] == TASK][0]
+    caps = dict(agg[3])
+    xorb = lambda z: (z[0] == 'upvar' and z[1] == 'xorb') or (z[0] == 'local' and z[2] == 'xorb') or (z[0] == 'param' and z[2] == 'xorb')
+    want = {'xorb_hash': 'RawXorbData::hash', 'xorb_data': 'RawXorbData::to_vec', 'chunks_and_boundaries': 'chunks_and_boundaries'}
+    for cap, meth in want.items():
+        e = caps.get(cap)
+        ok = e is not None and flow.mentions(e, lambda z: z[0] == 'call' and sg(z[1]).endswith(meth) and flow.mentions(z, xorb))
+        ctx.check(ok, 'R16e', REGC, 'task.' + cap, a.loc(sp[0]), 'the task captures %s = xorb.%s()' % (cap, meth.split('::')[-1]), 'the upload task\'s %s does not derive from the xorb being registered' % cap)
+    t = an(F.body(TASK))
+    ps = t.calls(PUT)
+    if ps:
+        args = [t.arg(ps[0], i) for i in range(len(t.term(ps[0])['args']))]
+        ok = flow.mentions(args[2], lambda z: z == ('upvar', 'xorb_hash')) and args[3] == ('upvar', 'xorb_data') and args[4] == ('upvar', 'chunks_and_boundaries')
+        ctx.check(ok, 'R16e', TASK, 'put.args', t.loc(ps[0]), 'put receives exactly those three captured values')
